@@ -236,7 +236,9 @@ pub struct World {
     pub tokens: Rc<TokenReg>,
     pub by_engine_id: RefCell<BTreeMap<usize, Hid>>,
     pub bind_gen: RefCell<BTreeMap<Hid, u32>>,
-    pub max_height: i32,
+    pub max_height: Cell<i32>,
+    /// greatest height bound of any node ever registered (the engine never forgets a height it saw)
+    pub max_hb_ever: Cell<i32>,
     pub me: Weak<World>,
     /// watchdog: total callback invocations (C19 "never hang")
     pub total_calls: Cell<u64>,
@@ -281,7 +283,8 @@ impl World {
             tokens: Rc::new(TokenReg::default()),
             by_engine_id: Default::default(),
             bind_gen: Default::default(),
-            max_height: knobs.max_height.map(|h| h as i32).unwrap_or(128),
+            max_height: Cell::new(knobs.max_height.map(|h| h as i32).unwrap_or(128)),
+            max_hb_ever: Cell::new(0),
             me: me.clone(),
             total_calls: Cell::new(0),
             call_limit: 200_000,
@@ -353,6 +356,7 @@ impl World {
         hb: i32,
     ) -> Hid {
         let engine_id = h.engine_id();
+        self.max_hb_ever.set(self.max_hb_ever.get().max(hb));
         let pair = h.is_pair();
         let trip = h.is_trip();
         let hid = {
